@@ -6,6 +6,7 @@ package grpcmux
 import (
 	"errors"
 	"fmt"
+	"github.com/hashicorp/go-plugin/internal/verifhook"
 	"net"
 	"sync"
 	"time"
@@ -114,6 +115,7 @@ func (m *GRPCServerMuxer) Accept() (net.Conn, error) {
 
 	for {
 		conn, acceptErr := session.Accept()
+		verifhook.Point("grpcmux.server.accepted", 0)
 
 		select {
 		case id := <-m.knockCh:
